@@ -220,6 +220,7 @@ func c14(c *core.Ctx) {
 		}
 		c14ClientHeader(c, statusKey)
 		c14ReplyHeadersOnlyRead(c)
+		c14StatusBeforeBody(c)
 		c.EndRule()
 	}
 
@@ -1086,5 +1087,42 @@ func c14ReplyHeadersOnlyRead(c *core.Ctx) {
 	}
 	if bad == 0 {
 		c.Ok("httpgrpc:reply-headers-only-read", token.NoPos, "%d header-map mutations in httpgrpc, none on an *http.Response's Header", n)
+	}
+}
+
+// c14StatusBeforeBody: in the unary client call the status header is looked at
+// BEFORE the body is awaited: a failed or stalled error body (or the context
+// ending while it is read) must not replace the code that already arrived in
+// the headers.
+func c14StatusBeforeBody(c *core.Ctx) {
+	p := c.P
+	n := 0
+	for _, ct := range channelTypes(p, "httpgrpc") {
+		fn := declaredMethod(p, ct, "Invoke")
+		if fn == nil {
+			continue
+		}
+		// the decoder call: a package function from *http.Response to *status.Status
+		var dec *ssa.Call
+		for _, call := range core.CallsIn(fn, func(call *ssa.Call, ci core.CallInfo) bool {
+			return ci.Static != nil && core.PkgIs(ci.Static, "httpgrpc") && len(ci.Static.Params) == 1 && core.TypeStr(ci.Static.Params[0].Type()) == "*net/http.Response" && strings.HasSuffix(core.TypeStr(call.Type()), "status.Status")
+		}) {
+			dec = call
+		}
+		if dec == nil {
+			continue
+		}
+		core.Instrs(fn, func(in ssa.Instruction) {
+			sel, ok := in.(*ssa.Select)
+			if !ok || !sel.Blocking {
+				return
+			}
+			n++
+			okOrder := core.MustPass(core.Entry(fn), sel, func(x ssa.Instruction) bool { return x == ssa.Instruction(dec) })
+			c.Check(okOrder, core.FuncName(fn)+":status-before-body-wait", sel.Pos(), "the status header is decoded before the wait for the reply body", "the wait for the reply body (which can fail, stall until the deadline, or be cut) comes before the status header is looked at: when it does, the caller gets Unknown / DeadlineExceeded instead of the code the server sent")
+		})
+	}
+	if n == 0 {
+		c.Fail("httpgrpc:unary-body-wait", token.NoPos, "ANCHOR-MISSING: no blocking wait for the reply body next to the status decoder in the unary client call")
 	}
 }
